@@ -29,6 +29,12 @@ pub fn k_of(name: &str) -> usize {
         "Kmer40" => 40,
         "Kmer48" => 48,
         "Kmer64" => 64,
+        // VarIntKmer whose K fills its storage integer (user-declared KmerSize)
+        "Kmer4v" => 4,
+        "Kmer8v" => 8,
+        "Kmer16v" => 16,
+        "Kmer32v" => 32,
+        "Kmer64v" => 64,
         _ => panic!("unknown k-mer type {}", name),
     }
 }
